@@ -169,6 +169,7 @@ func floor(s *slip.Scope, f slip.Object, args slip.List, depth int) slip.Values 
 				r = (*slip.Bignum)(zr.Sub((*big.Int)(tn), &zp))
 			}
 		}
+		q, r = reduceNumber(q), reduceNumber(r)
 	case *slip.Ratio:
 		var (
 			zr big.Rat
@@ -210,6 +211,7 @@ func floor(s *slip.Scope, f slip.Object, args slip.List, depth int) slip.Values 
 				r = (*slip.Ratio)(&zr)
 			}
 		}
+		q, r = reduceNumber(q), reduceNumber(r)
 	case slip.Complex:
 		slip.TypePanic(s, depth, "number", tn, "real")
 	}
